@@ -19,6 +19,9 @@
 // Facts: schnorrSigRxUses (the sorted set) and schnorrSigRxRaw (= the set is exactly {Equals, SetB32}).
 // Props/C03.lean proves schnorrSigRxRaw = true (kernel re-check on every run); exit 2 when SchnorrVerify or
 // the load of sig[:32] cannot be found (broken tie).
+//
+// Second group (config.go): the configuration variables of lib/btc/ecdsa.go (signer switch, verifier hooks) and
+// the library functions that write them — expected none (theorem config_written_by_no_library_function).
 package main
 
 import (
@@ -181,6 +184,8 @@ func main() {
 	sb.WriteString("def schnorrSigRxUses : List String := [" + strings.Join(q, ", ") + "]\n\n")
 	sb.WriteString("/-- the signature's r is loaded raw (SetB32) and only ever compared (Equals): never normalised -/\n")
 	sb.WriteString(fmt.Sprintf("def schnorrSigRxRaw : Bool := %v\n\n", raw))
+	cfgLean, cfgN, cfgSummary := configFacts()
+	sb.WriteString(cfgLean)
 	sb.WriteString("end GocoinV.Gen.C03Facts\n")
 	out := vlib.Root() + "/lean/GocoinV/Gen/C03Facts.lean"
 	os.Remove(out)
@@ -188,5 +193,6 @@ func main() {
 		die("%v", err)
 	}
 	fmt.Printf("gen_c03: SchnorrVerify uses of the signature's r Field: %v raw=%v\n", list, raw)
-	fmt.Printf("FACTS %d\n", 2)
+	fmt.Printf("gen_c03: %s\n", cfgSummary)
+	fmt.Printf("FACTS %d\n", 2+cfgN)
 }
